@@ -255,6 +255,7 @@ func handlePayload(h *Handler, errResp errorResponder, p dataPayload, e xmlstrea
 
 	// If a call to conn.Read was pending, signal it that it's okay to resume
 	// because there's data now.
+	verifYield("payload.signal", p.SID)
 	select {
 	case conn.readReady <- struct{}{}:
 	default:
@@ -314,6 +315,7 @@ func open(ctx context.Context, h *Handler, acked bool, s *xmpp.Session, start st
 	if err != nil {
 		return nil, err
 	}
+	verifYield("open.reply", sid)
 
 	conn, err := newConn(h, s, iq, false, MaxBufferSize), nil
 	if err != nil {
